@@ -458,3 +458,6 @@ _rules15 = rules
 def rules(fx, rep):
     _rules15(fx, rep)
     rule_helper_polys(fx, rep)
+    # "sgn0(y) = sgn0(t)" is RFC 9380's statement only if sgn0 is RFC 9380's sgn0
+    from props import c18
+    c18.rule_sgn0(fx, rep)
